@@ -51,7 +51,7 @@ enum Op {
 
 fn alphabet(with_t: bool) -> Vec<Op> {
     let mut v = vec![
-        Op::W(5),
+        Op::W(5), // its text ends with the line ending
         Op::W(1),
         Op::W(N - 1),
         Op::W(N),
@@ -115,6 +115,20 @@ fn grid(tier: &str) -> Vec<Case> {
                     starttime: false,
                 });
             }
+        }
+    }
+    // a timestamp format coarser than the rotation rhythm: every rotation of a run lands on the
+    // same infix and must get a .restart-NNNN extension, whatever the clock does in between
+    for crit in [CritK::Size(N), CritK::Age(AgeK::Second)] {
+        for mode in [ModeK::Direct, ModeK::BufDont(16)] {
+            let mut cfg = Cfg::rot(crit, crate::lg::NamingK::CoarseDirect, CleanK::Never);
+            cfg.mode = mode;
+            g.push(Case {
+                cfg,
+                depth: d_main,
+                with_t: true,
+                starttime: false,
+            });
         }
     }
     // cross with line ending and file-name shapes at a smaller depth
@@ -212,7 +226,13 @@ fn run_word(c: &Case, word: &[Op]) -> Result<Obs, (String, String)> {
         match op {
             Op::W(l) => {
                 let l = (*l as usize).max(ending.len());
-                let msg = lg::payload(0, seq, l - ending.len());
+                let mut msg = lg::payload(0, seq, l - ending.len());
+                // the 5-byte record is one whose own text ends with the configured line ending
+                // (the line is format output + ending, whatever the output ends with)
+                if l == 5 && msg.len() >= ending.len() {
+                    msg.truncate(msg.len() - ending.len());
+                    msg.push_str(ending);
+                }
                 seq += 1;
                 expected.extend(msg.as_bytes());
                 expected.extend(ending.as_bytes());
